@@ -30,7 +30,8 @@ def cases(tier, seed):
             cells.append({"name": nm, "px": px, "extra": extra})
         yield "sc.create", {"table": table, "mode": mode, "cells": cells,
                             "bins_mode": "dict" if extra_kind == 2 or h % 7 == 0 else "single",
-                            "form": ["frame", "iter", "dict"][h % 3], "open": ["uri", "handle"][h % 2]}
+                            "form": ["frame", "iter", "dict"][h % 3], "open": ["uri", "handle"][h % 2],
+                            "ordered": h % 4 != 2, "mergebuf": rng.choice([1, 3, 10 ** 6])}
 
 
 def run(tier, seed, only_case=None):
